@@ -125,6 +125,9 @@ func setupRange(args ...string) (handler.Handler4, error) {
 	if err != nil {
 		return nil, fmt.Errorf("invalid lease duration: %v", args[3])
 	}
+	// A lease time goes onto the wire in whole seconds. Keep the value the clients are told,
+	// so that the expiry that is stored is the end of the lease that was promised
+	p.LeaseTime = p.LeaseTime.Round(time.Second)
 
 	if err := p.registerBackingDB(filename); err != nil {
 		return nil, fmt.Errorf("could not setup lease storage: %w", err)
